@@ -101,6 +101,18 @@ func c03(tier string, args []string) int {
 			}
 		}
 	}
+	// batches in which one identifier names two different things: two explicit tasks, and an explicit
+	// task named like the entry a baked range expands to (baked entries are named by their
+	// validator index). "The payload in the proposal" for that identifier does not exist: such a
+	// proposal must be refused by every participant alike, before anything is signed.
+	firstAmbiguous := len(batches)
+	if ref0, err := RefExpand([]requests.SigningTask{{MessageID: "r", RangeStart: 0, RangeEnd: 1}}); err == nil && len(ref0) == 1 {
+		batches = append(batches,
+			[]requests.SigningTask{{MessageID: "twice", File: "a", Payload: []byte("first payload")}, {MessageID: "twice", File: "b", Payload: []byte("second payload")}},
+			[]requests.SigningTask{{MessageID: ref0[0].ID, File: "explicit", Payload: []byte("explicit payload under a validator's index")}, {MessageID: "r-first", RangeStart: 0, RangeEnd: 1}},
+			[]requests.SigningTask{{MessageID: "r-first", RangeStart: 0, RangeEnd: 1}, {MessageID: ref0[0].ID, File: "explicit", Payload: []byte("explicit payload under a validator's index")}},
+		)
+	}
 	sw := SetupSignWorld(r, 3, 2, worldx.NumWorkers())
 	defer sw.Close()
 
@@ -178,6 +190,16 @@ func c03(tier string, args []string) int {
 				evals++
 				mu.Unlock()
 				accepted := k.C.Snapshot(s1.Snap[0]).RoundState(sw.Round) == string(sif.StateSigningAwaitPartialSigns)
+				if bi >= firstAmbiguous {
+					for i := 0; i < 3; i++ {
+						st := k.C.Snapshot(s1.Snap[i]).RoundState(sw.Round)
+						if st == string(sif.StateSigningAwaitPartialSigns) || len(k.Pending(s1, i)) > 0 {
+							r.Violation("C03/ambiguous-identifier-accepted", fmt.Sprintf("batch %v names two different payloads with one identifier, yet node %d takes it (round state %s, %d operation(s) for the operator)", ids, i, st, len(k.Pending(s1, i))), trace)
+							break
+						}
+					}
+					continue
+				}
 				if len(ref) == 0 {
 					// nothing to sign: whatever the nodes do, nothing may be signed or stored
 					for i := 0; i < 3; i++ {
